@@ -61,6 +61,10 @@ def define_pool():
     for pl in PAD:
         for name in NAMES:
             pool.append((pl + name + pl, name, "true"))
+    # only the SURROUNDING pair of quotes is stripped: quote characters that belong to the value stay
+    n0 = NAMES[0]
+    pool += [(n0 + '="say "hi""', n0, 'say "hi"'), (n0 + '=""a""', n0, '"a"'), (n0 + "='it's''", n0, "it's'"),
+             ('"' + n0 + '=keep "calm""', n0, 'keep "calm"')]
     return pool
 
 
